@@ -1,12 +1,12 @@
 #!/bin/bash
-# usage: confirm_seed.sh <PROPERTY-ID> [extra cargo test args, e.g. --features shared-core]
+# usage: [OUTNAME=<dir name under /verif/seeded>] confirm_seed.sh <PROPERTY-ID> [extra cargo test args, e.g. --features shared-core]
 # Re-confirms a seeded change in its scratch worktree /tmp/seed_<ID>:
 #   demo fails with the change, passes without it, existing suite passes with it.
 # Stores patch, demo and the confirmation log under /verif/seeded/<ID>/.
 ID=$1; shift
 EXTRA="$@"
 W=/tmp/seed_$ID
-OUT=/verif/seeded/$ID
+OUT=/verif/seeded/${OUTNAME:-$ID}
 mkdir -p $OUT
 export CARGO_NET_OFFLINE=true
 cd $W || exit 2
